@@ -121,7 +121,7 @@ extern "C" void k_select()
     for (int k = 0; k < VF_NSEL; k++)
       if (sec0[ind[k]] == s && dst[k] < dst[i]) rin[i]++;
   }
-  int kept = 0;
+  int kept = 0, total = 0;
   for (int i = 0; i < VF_NSEL; i++)
   {
     int j = ind[i];
@@ -138,13 +138,14 @@ extern "C" void k_select()
       if (sk < 0) continue;
       if (rin[k] < rin[i] || (rin[k] == rin[i] && sk < s)) before++;
     }
-    if (before < nmaxi)
-    {
+    bool keep = before < nmaxi;
+    if (keep)
       vf_assert_id(ranks[j] == s, "kept set == cycling over the sectors, next-closest first");
-      kept++;
-    }
     else
       vf_assert_id(ranks[j] == -1, "candidates beyond nmaxi are discarded");
+    vf_assume(ranks[j] == (keep ? s : -1)); // lemma: just asserted under the same path condition
+    if (keep) kept++;
+    if (ranks[j] >= 0) total++;
 #if VF_NSECT == 1
     // single sector: the nmaxi closest
     {
@@ -155,12 +156,10 @@ extern "C" void k_select()
     }
 #endif
   }
-  int total = 0;
   for (int j = 0; j < VF_NECH; j++)
-  {
-    if (ranks[j] >= 0) total++;
     if (!is_candidate(j)) vf_assert_id(ranks[j] == -1, "non-candidates stay unselected");
-  }
-  vf_assert_id(total == (nmaxi < avail ? nmaxi : avail), "total kept == min(nmaxi, available)");
+  // total = number of candidates whose rank is still >= 0 (all other samples are -1, asserted above)
+  vf_assert_id(total == kept, "total kept == size of the cycling selection");
+  vf_assert_id(kept == (nmaxi < avail ? nmaxi : avail), "total kept == min(nmaxi, available)");
   vf_witness();
 }
